@@ -713,21 +713,22 @@ def distributeStubs (L : Ledger) (poolAmount samples : Nat) : List (Addr × Nat)
         else distributeStubs L1 poolAmount samples rest (tot + d)
       else distributeStubs L1 poolAmount samples rest tot
 
-/-- one committee of `DistributeCommitteeRewards`: pay the stubs, burn the undistributed remainder, empty the pool,
-clear the committee data (keeping the heights) -/
+/-- the end of one committee's distribution: burn the undistributed remainder, empty the pool, clear the committee
+data (keeping the heights). `rewardPool.Amount - totalDistributed` is an unguarded uint64 subtraction. -/
+def distributeFinish (L : Ledger) (d : CommitteeData) (poolAmount tot : Nat) : M Ledger :=
+  match subFromTotal L ((poolAmount + U64 - tot) % U64) with
+  | .error e => .error e
+  | .ok L2 =>
+    .ok (putCommitteeData (poolPut L2 d.chainId 0)
+      { chainId := d.chainId, lastRootHeight := d.lastRootHeight, lastChainHeight := d.lastChainHeight })
+
+/-- one committee of `DistributeCommitteeRewards`: pay the stubs, then `distributeFinish` -/
 def distributeFor (L : Ledger) (d : CommitteeData) : M Ledger :=
   if d.percents.isEmpty then .ok L
   else
-    let poolAmount := poolGet L d.chainId
-    match distributeStubs L poolAmount d.samples d.percents 0 with
+    match distributeStubs L (poolGet L d.chainId) d.samples d.percents 0 with
     | .error e => .error e
-    | .ok (tot, L1) =>
-      -- `rewardPool.Amount - totalDistributed` is an unguarded uint64 subtraction
-      match subFromTotal L1 ((poolAmount + U64 - tot) % U64) with
-      | .error e => .error e
-      | .ok L2 =>
-        .ok (putCommitteeData (poolPut L2 d.chainId 0)
-          { chainId := d.chainId, lastRootHeight := d.lastRootHeight, lastChainHeight := d.lastChainHeight })
+    | .ok r => distributeFinish r.2 d (poolGet L d.chainId) r.1
 
 /-- `DistributeCommitteeRewards` (the list of committee data is read once, before the loop) -/
 def distributeCommitteeRewards (L : Ledger) : M Ledger := L.committeesData.foldlM distributeFor L
